@@ -48,11 +48,14 @@ def gen_scenario(rng, style="mixed", ndev=None, transports=("pipe", "pipe", "tcp
         if rng.random() < 0.2:
             d.ping = rng.choice([1.5, 4.0]); d.kinds.append("ping")
     nodes = cfg.all_nodes()
+    slow = [d.name for d in cfg.devs if "ping" in d.kinds and rng.random() < 0.6]      # devices whose pong comes a few passes late
     for i in range(rng.choice([0, 0, 1])):
         cfg.aliases.append(("a%d" % i, ",".join(rng.sample(nodes, rng.randint(1, min(3, len(nodes)))))))
     ncli = rng.choice([1, 1, 2, 3])
     sc = Scenario(cfg, [], dict(style=style, ncli=ncli))
     S = sc.script
+    for name in slow:
+        S.append(("devmode", name, "slowpong"))
     for k in range(ncli):
         S.append(("connect",)); S.append(("wait", k))
     faulty = style in ("faults", "mixed") and rng.random() < (0.8 if style == "faults" else 0.4)
@@ -64,8 +67,8 @@ def gen_scenario(rng, style="mixed", ndev=None, transports=("pipe", "pipe", "tcp
             S.append(("wait", k)); outstanding.discard(k)
         if faulty and rng.random() < 0.45:
             d = rng.choice(cfg.devs)
-            f = rng.choice(["silent", "garbage", "partial", "verdict-err", "verdict-missing", "close", "healthy", "verdict-garble"])
-            if f in ("silent", "garbage", "partial", "healthy"):
+            f = rng.choice(["silent", "garbage", "partial", "verdict-err", "verdict-missing", "close", "healthy", "verdict-garble", "hangup", "slowpong"])
+            if f in ("silent", "garbage", "partial", "healthy", "hangup", "slowpong"):
                 S.append(("devmode", d.name, f))
             elif f == "close":
                 S.append(("close_dev", d.name))
@@ -96,6 +99,33 @@ def gen_scenario(rng, style="mixed", ndev=None, transports=("pipe", "pipe", "tcp
     for k in range(ncli):
         if rng.random() < 0.5:
             S.append(("send", k, b"quit\r\n")); S.append(("wait", k))
+    return sc
+
+
+def renumber(sc):
+    """client labels used by script steps -> pmsim client numbers (= order of the connect steps).  Steps inserted by
+    generators carry their label in the connect step: ("connect", label); plain ("connect",) steps are labelled 0, 1, ... in
+    order of appearance among the plain ones."""
+    mapping, plain, n = {}, 0, 0
+    for st in sc.script:
+        if st[0] == "connect":
+            if len(st) > 1:
+                mapping[st[1]] = n
+            else:
+                mapping[plain] = n; plain += 1
+            n += 1
+    def fix_raw(e):
+        return re.sub(r"\bc(\d+)\b", lambda m: "c%d" % mapping.get(int(m.group(1)), int(m.group(1))), e)
+    out = []
+    for st in sc.script:
+        if st[0] == "connect": out.append(("connect",))
+        elif st[0] in ("send",): out.append((st[0], mapping.get(st[1], st[1])) + tuple(st[2:]))
+        elif st[0] == "wait": out.append(("wait", mapping.get(st[1], st[1])))
+        elif st[0] == "raw": out.append(("raw", [fix_raw(e) for e in st[1]]))
+        else: out.append(st)
+    sc.script[:] = out
+    for r in sc.requests:
+        r["client"] = mapping.get(r["client"], r["client"])
     return sc
 
 
@@ -322,6 +352,9 @@ def mon_c10(sess, sc):
             bad.append(("login-first", "connection-start", "%s (%s): first line is %r" % (conn, sess.conn_dev.get(conn), lines[0][:40])))
         if data.count(b"LOGIN\n") > 1:
             bad.append(("login-twice", "connection", "%s: LOGIN sent %d times on one connection" % (conn, data.count(b"LOGIN\n"))))
+    for name, d in sess.devs.items():
+        for conn, owed, got in d.interleaves:
+            bad.append(("one-conversation", "interleave", "device %s, %s: %r arrived while the answer to %s was still owed" % (name, conn, got[:40], owed)))
     return bad
 
 
@@ -353,6 +386,21 @@ def mon_c20(sess, sc):
         return bad
     rnd, now, tmo, interest, devs, vfds, kids, mem = sess.timeouts[-1]
     live_clients = sess.nclients - len(sess.closed_clients)
+    # ground truth: a client that hung up / reset / quit and whose script ended (every request answered or abandoned) must have
+    # been destroyed by now, whatever the daemon's own bookkeeping says
+    gone = set()
+    for rnd_evs in sess.sim.events:                     # what the environment really sent (a script cut short by SIGTERM sends less)
+        for e in rnd_evs:
+            m = re.match(r"(EOF|RST|FULLCLOSE) c(\d+)", e)
+            if m: gone.add(int(m.group(2)))
+            m = re.match(r"IN c(\d+) ([0-9a-f]+)", e)
+            if m:
+                if bytes.fromhex(m.group(2)).strip().lower().startswith(b"quit"): gone.add(int(m.group(1)))
+                else: gone.discard(int(m.group(1)))      # a generated script that keeps talking after its own hang-up is not a hang-up
+    if not sess.overrun and not sc.tags.get("sigterm") and all(d.get("queue", "0") == "0" for d in devs):      # nothing queued on any device any more
+        for k in sorted(gone):
+            if k < sess.nclients and k not in sess.closed_clients:
+                bad.append(("fd-ledger", "client-not-reaped", "client %d hung up / quit and the activity has settled, but its descriptor was never closed" % k))
     devfds = sum(1 for d in devs if d.get("fd", "none").startswith("conn"))
     stale = [d for d in devs if d.get("fd") == "STALE"]
     if stale:
